@@ -55,6 +55,9 @@ func checkC17(P *Prog, r *Result) {
 		"(executions never write schema objects). Random builder chains on inputs are not decided."
 	// ---- not-typestate ----
 	P.checkNotTypestate(r)
+	// a schema derived with Pick/Omit/Extend/Merge owns its test and transform slices: a builder call on one
+	// schema cannot overwrite an entry of the other (C16's rule)
+	shareRule(P, r, checkC16, "C16/no-shared-backing", nil, "C17/derived-own-slices", 4)
 	// ---- field-effects ----
 	for _, k := range R.Kinds {
 		kn := k.Obj().Name()
@@ -512,6 +515,29 @@ func (P *Prog) checkNotTypestate(r *Result) {
 			note("the test is not appended exactly once on every path")
 		}
 	}
+	// the negated code is derived from the test's built-in code: NotIssueCode runs before any option of the
+	// caller is applied (an IssueCode option applied first would be the code that gets negated)
+	for _, u := range P.nodeUnits(consumer) {
+		var flips, opts []ssa.Instruction
+		eachInstr(u.fn, func(_ *ssa.BasicBlock, _ int, in ssa.Instruction) {
+			if ci := callOf(in); ci != nil {
+				if ci.static != nil && ci.static.Name() == "NotIssueCode" {
+					flips = append(flips, in)
+				}
+				if ci.dynamic && P.optionKind(ci.instr.Common().Value.Type()) == "TestOption" {
+					opts = append(opts, in)
+				}
+			}
+		})
+		for _, o := range opts {
+			for _, f := range flips {
+				ob, fb := o.Block(), f.Block()
+				if ob == fb && instrIndex(o) < instrIndex(f) || ob != fb && reachFromSuccs(ob, nil)[fb] {
+					problems = append(problems, "the issue code is negated ("+P.ipos(f)+") after the caller's options were applied ("+P.ipos(o)+"): an IssueCode option is negated instead of the built-in code")
+				}
+			}
+		}
+	}
 	if !sawNeg {
 		problems = append(problems, "the isNot branch does not build the test with the negated wrapper")
 	}
@@ -702,6 +728,12 @@ func (P *Prog) checkOptionLocality(r *Result) {
 				if !P.testLocalIsResult(fn, al) {
 					problems = append(problems, "the Test the options were applied to is not the one added to the schema ("+P.ipos(in)+")")
 				}
+				// the copy that goes into the schema is taken after the options have run: a copy taken before
+				// (append / pass by value / return of *t, then the option loop) never sees Message, IssueCode,
+				// IssuePath or Params
+				if at := copiedBefore(al, in); at != nil {
+					problems = append(problems, "the Test is copied into the schema at "+P.ipos(at)+", before the options are applied to it ("+P.ipos(in)+"): the options have no effect")
+				}
 				return
 			}
 			if ci.static != nil {
@@ -766,6 +798,42 @@ func (P *Prog) testLocalIsResult(fn *ssa.Function, al *ssa.Alloc) bool {
 		}
 	}
 	return ok
+}
+
+// copiedBefore: a by-value use of the local Test al (its loaded value appended,
+// stored, returned or passed to a call) from which the option call opt can
+// still be reached: that copy is taken before the option runs.
+func copiedBefore(al *ssa.Alloc, opt ssa.Instruction) ssa.Instruction {
+	refs := al.Referrers()
+	if refs == nil {
+		return nil
+	}
+	for _, rf := range *refs {
+		ld, ok := rf.(*ssa.UnOp)
+		if !ok || ld.Op != token.MUL || ld.Referrers() == nil {
+			continue
+		}
+		escapes := false
+		for _, u := range *ld.Referrers() {
+			switch x := u.(type) {
+			case *ssa.Call, *ssa.Return, *ssa.MakeInterface:
+				escapes = true
+			case *ssa.Store:
+				// into a varargs array for append, or into a field / another variable
+				if x.Val == ssa.Value(ld) {
+					escapes = true
+				}
+			}
+		}
+		if !escapes {
+			continue
+		}
+		lb, ob := ld.Block(), opt.Block()
+		if lb == ob && instrIndex(ld) < instrIndex(opt) || reachFromSuccs(lb, nil)[ob] {
+			return ld
+		}
+	}
+	return nil
 }
 
 // notConsumer: the function that branches on the negation flag (the bool field Not() sets), whatever it is called.
